@@ -200,9 +200,10 @@ class Discharger:
         res = str(r)
         m = self.s.model() if res == 'sat' else None
         self.s.pop()
-        if res == 'unknown':
+        if res == 'unknown' and self.stats.get('retried_unknown', 0) < 3:
             # one retry in a fresh solver with six times the budget and another seed (a loaded
-            # machine or an unlucky heuristic must not turn into a verdict either way)
+            # machine or an unlucky heuristic must not turn into a verdict either way); at most three
+            # such retries per case, so that a hint whose queries are all hard costs minutes, not hours
             s2 = z3.Solver()
             s2.set('timeout', 60000)
             s2.set('random_seed', 7)
